@@ -39,6 +39,21 @@ def run(res, replay=None):
         data = geo.geo_data(tier, seed, inputs=[rp["input"]], name="geo_replay")
     else:
         data = geo.geo_data(tier, seed)
+        # a face with several hundred vertices: two generators on an axis inside a ring of n others (radii perturbed, so that the
+        # configuration is not degenerate); only the two axis cells are constructed.  Table entries that count vertices per face must not be narrow
+        rng = C.Rng(seed * 2609 + 17)
+        big = []
+        for nring in ([300] if tier == "quick" else [300, 257, 520]):
+            ctr, rad, h = [0.5, 0.5, 0.5], 0.35, 0.05
+            gens = [[ctr[0], ctr[1], ctr[2] + h], [ctr[0], ctr[1], ctr[2] - h]]
+            for i in range(nring):
+                a = 2 * math.pi * (i + 0.05 * rng.unit()) / nring
+                r = rad * (1.0 + 1e-5 * rng.unit())
+                gens.append([ctr[0] + r * math.cos(a), ctr[1] + r * math.sin(a), ctr[2] + 1e-5 * (rng.unit() - 0.5)])
+            big.append({"family": "bigface", "dim": 3, "periodic": False, "anchor": [0.0, 0.0, 0.0], "width": [1.0, 1.0, 1.0],
+                        "gens": gens, "mask": [True, True] + [False] * nring})
+        extra = geo.geo_data(tier, seed, inputs=big, name="c15big")
+        data = {"recs": data["recs"] + extra["recs"]}
     model_lines, model_idx = [], []
     for k_in, rec in enumerate(data["recs"]):
         inp = rec["inp"]
